@@ -9,6 +9,8 @@ pub enum LmsAlgorithm {
     LmsReserved = 0,
     #[cfg(test)]
     LmsH2 = 1,
+    #[cfg(all(hbs_lms_verif, not(test)))]
+    LmsH2 = 1,
     LmsH5 = 5,
     LmsH10 = 6,
     LmsH15 = 7,
@@ -20,6 +22,8 @@ impl From<u32> for LmsAlgorithm {
     fn from(_type: u32) -> Self {
         match _type {
             #[cfg(test)]
+            1 => LmsAlgorithm::LmsH2,
+            #[cfg(all(hbs_lms_verif, not(test)))]
             1 => LmsAlgorithm::LmsH2,
             5 => LmsAlgorithm::LmsH5,
             6 => LmsAlgorithm::LmsH10,
@@ -41,6 +45,8 @@ impl LmsAlgorithm {
             LmsAlgorithm::LmsReserved => None,
             #[cfg(test)]
             LmsAlgorithm::LmsH2 => Some(LmsParameter::new(1, 2)),
+            #[cfg(all(hbs_lms_verif, not(test)))]
+            LmsAlgorithm::LmsH2 => Some(LmsParameter::new(1, 2)),
             LmsAlgorithm::LmsH5 => Some(LmsParameter::new(5, 5)),
             LmsAlgorithm::LmsH10 => Some(LmsParameter::new(6, 10)),
             LmsAlgorithm::LmsH15 => Some(LmsParameter::new(7, 15)),
@@ -52,6 +58,8 @@ impl LmsAlgorithm {
     pub fn get_from_type<H: HashChain>(_type: u32) -> Option<LmsParameter<H>> {
         match _type {
             #[cfg(test)]
+            1 => LmsAlgorithm::LmsH2.construct_parameter(),
+            #[cfg(all(hbs_lms_verif, not(test)))]
             1 => LmsAlgorithm::LmsH2.construct_parameter(),
             5 => LmsAlgorithm::LmsH5.construct_parameter(),
             6 => LmsAlgorithm::LmsH10.construct_parameter(),
